@@ -95,6 +95,29 @@ class Program:
                         t_["resolved"] = k_.split("::", 1)[1]
                         t_["local"] = True
                         t_["rcrate"] = k_.split("::", 1)[0]
+        # `x.into()` where the target type has a local `impl From<typeof x>`: the call of that from
+        froms = {}
+        for k in self.bodies:
+            if k.endswith(">::from") or k.endswith("::from"):
+                import re as _re
+                m_ = _re.search(r"<impl std::convert::From<(.+)> for (.+)>::from$", k) or _re.search(r"<(.+) as std::convert::From<(.+)>>::from$", k)
+                if m_:
+                    src_, dst_ = (m_.group(1), m_.group(2)) if "<impl " in k else (m_.group(2), m_.group(1).split("::<", 1)[-1] if False else m_.group(1))
+                    froms[(src_.strip(), dst_.strip().split("::<")[-1])] = k
+        if froms:
+            for b_ in list(self.bodies.values()):
+                for blk in b_.j.get("blocks", []):
+                    t_ = blk.get("term") or {}
+                    if t_.get("k") == "call" and t_.get("callee") == "std::convert::Into::into" and len(t_.get("targs") or []) == 2:
+                        k_ = froms.get((t_["targs"][0], t_["targs"][1]))
+                        if k_ is None:
+                            k_ = next((v for (s0, d0), v in froms.items() if s0 == t_["targs"][0] and (d0 == t_["targs"][1] or d0.endswith("::" + t_["targs"][1]) or t_["targs"][1].endswith("::" + d0))), None)
+                        if k_ is not None:
+                            t_["callee"] = t_["callee_full"] = k_
+                            t_["rkey"] = k_
+                            t_["resolved"] = k_.split("::", 1)[1]
+                            t_["local"] = True
+                            t_["rcrate"] = k_.split("::", 1)[0]
         global CURRENT
         CURRENT = self
         PROGRAMS.insert(0, self)
